@@ -168,11 +168,10 @@ class C15(Check):
                   suppress_health_check=list(HealthCheck), report_multiple_bugs=False)
         @given(st.booleans(), st.data())
         def prop(parsed, data):
-            if runner.time_left() < 0:
-                res.truncated = True
-                return
             spec = data.draw(trees.spec_strategy(max_leaves=16, parseable=parsed))
             case = {'spec': spec, 'parsed': parsed}
+            if runner.over_budget(res):
+                return
             root = mod.parse(trees.to_text(spec)) if parsed else trees.build(spec, mod)
             res.evals += 1
             bad = check_tree(mod, root)
@@ -184,7 +183,10 @@ class C15(Check):
             res.hist['parsed' if parsed else 'constructed'] += 1
             if bad:
                 res.mismatch(case)
-        prop()
+        try:
+            prop()
+        except runner.StopTask:
+            pass
         return res
 
     def replay(self, case):
